@@ -5,6 +5,23 @@ import WzVerif.Driver.PyPrelude
 namespace Wz.Driver.C14
 open Wz Wz.Proto Wz.Paths
 
+/-- `os.path.isfile` for the harness's tree: `files` are absolute and normalised, `cwd` absolute -/
+def isfileIn (cwd : Str) (files : List Str) (p : Str) : Bool := files.contains (normpath (join cwd [p]))
+
+/-- `<search> <kind> <a> <b>` groups: kind `v` = a str value `a` (file or directory, decided with the
+same file list as `__init__` would), kind `p` = package export (`a` = package directory, `b` =
+package_path) -/
+def parseExports : Nat → List String → Option (List (Str × ExportSpec) × List String)
+  | 0, rest => some ([], rest)
+  | n + 1, s :: k :: a :: b :: rest =>
+    match unhexStr s, unhexStr a, unhexStr b, parseExports n rest with
+    | some s, some a, some b, some (es, rest') =>
+      if k == "v" then some ((s, .path a) :: es, rest')
+      else if k == "p" then some ((s, .package a b) :: es, rest')
+      else none
+    | _, _, _, _ => none
+  | _, _ => none
+
 def handle : Handler
   | "normpath", [p] =>
     match unhexStr p with
@@ -14,6 +31,10 @@ def handle : Handler
     match unhexStr a, ps.mapM unhexStr with
     | some a, some ps => some (hexStr (join a ps))
     | _, _ => some badArgs
+  | "basename", [p] =>
+    match unhexStr p with
+    | some p => some (hexStr (basename p))
+    | none => some badArgs
   | "safejoin", d :: ps =>
     match unhexStr d, ps.mapM unhexStr with
     | some d, some ps => some (outOpt hexStr (safeJoin d ps))
@@ -22,26 +43,41 @@ def handle : Handler
   | "sfd", cwd :: d :: path :: files =>
     match unhexStr cwd, unhexStr d, unhexStr path, files.mapM unhexStr with
     | some cwd, some d, some path, some files =>
-      some (outOpt hexStr (sendFromDirectory (fun p => files.contains (normpath (join cwd [p]))) d path))
+      some (outOpt hexStr (sendFromDirectory (isfileIn cwd files) d path))
     | _, _, _, _ => some badArgs
-  -- sdm <cwd> <path> <search_path> <directory> <existing file>...   (one directory export)
-  | "sdm", cwd :: path :: search :: d :: files =>
-    match unhexStr cwd, unhexStr path, unhexStr search, unhexStr d, files.mapM unhexStr with
-    | some cwd, some path, some search, some d, some files =>
-      some (outOpt hexStr
-        (sharedData (fun p => files.contains (normpath (join cwd [p]))) [(search, .dir d)] path))
+  -- sfdroot <cwd> <_root_path or ~> <directory> <path> <existing file>...  ->  <tested> <opened>
+  | "sfdroot", cwd :: root :: d :: path :: files =>
+    match unhexStr cwd, optArg unhexStr root, unhexStr d, unhexStr path, files.mapM unhexStr with
+    | some cwd, some root, some d, some path, some files =>
+      some (outOpt (fun (r : Str × Str) => hexStr r.1 ++ " " ++ hexStr r.2)
+        (sendFromDirectoryRoot (isfileIn cwd files) root d path))
     | _, _, _, _, _ => some badArgs
-  -- sdmpkg <package dir> <path> <search_path> <package_path> <existing file>...   (one package export)
-  | "sdmpkg", cwd :: path :: search :: pp :: files =>
-    match unhexStr cwd, unhexStr path, unhexStr search, unhexStr pp, files.mapM unhexStr with
-    | some cwd, some path, some search, some pp, some files =>
-      some (outOpt hexStr
-        (sharedData (fun p => files.contains (normpath (join cwd [p]))) [(search, .pkg pp)] path))
-    | _, _, _, _, _ => some badArgs
+  -- sdm <cwd> <path> <n> (<search> <kind> <a> <b>)*n <m> <disallowed real_filename>*m <existing file>...
+  | "sdm", cwd :: path :: n :: rest =>
+    match unhexStr cwd, unhexStr path, natArg n with
+    | some cwd, some path, some n =>
+      match parseExports n rest with
+      | some (specs, m :: rest') =>
+        match natArg m with
+        | some m =>
+          match (rest'.take m).mapM unhexStr, (rest'.drop m).mapM unhexStr with
+          | some dis, some files =>
+            let isfile := isfileIn cwd files
+            some (outOpt hexStr
+              (sharedData isfile (fun name => !dis.contains name) (mkExports isfile specs) path))
+          | _, _ => some badArgs
+        | none => some badArgs
+      | _ => some badArgs
+    | _, _, _ => some badArgs
   | "secure", [s] =>
     match unhexStr s with
     | some s => some (hexStr (secureAscii s))
     | none => some badArgs
+  -- securewith <os.sep, os.path.altsep characters> <nt> <name after the Unicode fold>
+  | "securewith", [seps, nt, s] =>
+    match unhexStr seps, boolArg nt, unhexStr s with
+    | some seps, some nt, some s => some (hexStr (secureAsciiWith seps nt s))
+    | _, _, _ => some badArgs
   | cmd, args => Wz.Driver.PyPrelude.handle cmd args  -- `pre.*`: primitives of Util/PyPrelude
 
 end Wz.Driver.C14
